@@ -2,6 +2,7 @@ import FractopoModel.Basic.Geom
 import FractopoModel.Lemmas.TopoPerm
 import FractopoModel.Props.C08
 import FractopoModel.Props.C14
+import FractopoModel.Lemmas.IntersectionFilter
 /-!
 # C11 — results depend only on 2-D geometry: order, direction, similarity
 
@@ -85,6 +86,32 @@ theorem C11_topology_perm {P : Type} [DecidableEq P] (bs bs' : List (Topo.Branch
     (Topo.collect bs').Perm (Topo.collect bs) ∧
     (∀ p, Topo.nodeClass nearB Gen.degree_to_class bs' p = Topo.nodeClass nearB Gen.degree_to_class bs p) :=
   ⟨(C14.C14_routes bs bs' h nearB close).1, (C14.C14_routes bs bs' h nearB close).2.1⟩
+
+/-! ### the V-node bookkeeping of validation does not depend on row order or digitising direction -/
+
+/-- **Order and direction freedom of the intersection filter.** The regenerated `determine_valid_intersection_points_no_vnode` (four nested
+loops that switch flags off in place, scanning the candidate rows in frame order and the two ends of every candidate in digitising order) returns
+the same points when the candidate rows are permuted and when any trace (candidate or the trace itself) is digitised in the other direction --
+i.e. when `ends_of` lists the ends of every line in another order.  So which contacts count as V-nodes moves with the rows. -/
+theorem C11_intersection_filter_order_free {L P : Type} (inter : List P) (ends_of ends_of' : L → List P) (close : P → P → Bool)
+    (cands cands' : List L) (geom : L) (hperm : cands.Perm cands') (hends : ∀ l, (ends_of' l).Perm (ends_of l)) :
+    Gen.intersection_points_no_vnode inter ends_of' close cands' geom = Gen.intersection_points_no_vnode inter ends_of close cands geom := by
+  rw [IntersectionFilter.generated_eq_spec, IntersectionFilter.generated_eq_spec]
+  apply List.filter_congr
+  intro p _
+  congr 1
+  rw [Bool.eq_iff_iff]
+  simp only [List.any_eq_true, IntersectionFilter.activeEnds, List.mem_flatMap, List.mem_filter]
+  constructor
+  · rintro ⟨ge, ⟨c, hc, ce, hce, hge, hcl⟩, hp⟩
+    exact ⟨ge, ⟨c, hperm.mem_iff.mpr hc, ce, (hends c).mem_iff.mp hce, (hends geom).mem_iff.mp hge, hcl⟩, hp⟩
+  · rintro ⟨ge, ⟨c, hc, ce, hce, hge, hcl⟩, hp⟩
+    exact ⟨ge, ⟨c, hperm.mem_iff.mp hc, ce, (hends c).mem_iff.mpr hce, (hends geom).mem_iff.mpr hge, hcl⟩, hp⟩
+
+/-- the hypotheses are met by a reversed row order with every trace reversed, and the filter then really drops a V-node contact -/
+example : Gen.intersection_points_no_vnode [5, 9] (fun l : Nat × Nat => [l.2, l.1]) (fun a b => a == b) [(7, 8), (1, 5)] (5, 6)
+    = Gen.intersection_points_no_vnode [5, 9] (fun l : Nat × Nat => [l.1, l.2]) (fun a b => a == b) [(1, 5), (7, 8)] (5, 6) ∧
+    Gen.intersection_points_no_vnode [5, 9] (fun l : Nat × Nat => [l.1, l.2]) (fun a b => a == b) [(1, 5), (7, 8)] (5, 6) = [9] := by decide +kernel
 
 /-! ### dimensional analysis of the published parameters (through C08: generated = published) -/
 
